@@ -160,6 +160,9 @@ def handle (st : St) : Toks → IO St
   | "replace" :: ts => answer st ts do
       let s ← pAtom; let t ← pAtom; let p ← pF; let c ← pCompound
       pure (showCompound (replace st.tbl.atomMass c s t p))
+  | "replace2" :: ts => answer st ts do
+      let d ← pF; let c ← pCompound
+      pure (showCompound (substituted st.tbl.atomMass c d))
   | "water" :: ts => answer st ts do
       let h ← pAtom; let nd ← pF
       pure (showCompound (water st.tbl h nd))
